@@ -50,7 +50,7 @@ POLLS = [0.1, 0.3, 0.15]         # worker poll intervals (virtual seconds); the 
 
 # ------------------------------------------------------------------------------------------ scenario family
 # (name, workers, [(ok-kind | None, fail?)...]) - jobs are materialised by c15.make_job with unique tokens
-SCENARIO_NAMES = ["S1_1ok_1w", "S2_1fail_1w", "S3_2jobs_1fail_1w", "S4_2ok_2w", "S5_3jobs_2w"]
+SCENARIO_NAMES = ["S1_1ok_1w", "S2_1fail_1w", "S3_2jobs_1fail_1w", "S4_2ok_2w", "S5_3jobs_2w", "S6_chain_2jobs_1w"]
 OK_KINDS = ["float_chain", "ctx_param", "collection", "source", "zero", "many_keys"]
 
 
@@ -59,6 +59,7 @@ def scenario(name: str, variant: int = 0) -> dict:
     from checks import c15
 
     k = SCENARIO_NAMES.index(name)
+    chain: dict = {}
     rng = random.Random(f"jobsched|{name}|{variant}")
     b = 400 + 16 * k + (variant % 16)
     fk = c15.FAIL_KINDS[variant % len(c15.FAIL_KINDS)]
@@ -74,6 +75,11 @@ def scenario(name: str, variant: int = 0) -> dict:
     elif name == "S5_3jobs_2w":
         plan, workers = [(ok(0), None), (None, fk), (ok(3), None)], 2
         plan = plan[variant % 3:] + plan[:variant % 3]
+    elif name == "S6_chain_2jobs_1w":
+        # job chaining: job 1 is enqueued (with a Future) from the done-callback of job 0's Future, i.e. on whatever
+        # thread completes Futures; job 0 fails in odd variants (the follow-up then is the recovery job)
+        plan, workers = [((None, fk) if variant % 2 else (ok(0), None)), (ok(1), None)], 1
+        chain = {0: 1}
     else:
         raise ValueError(name)
     jobs = []
@@ -83,7 +89,7 @@ def scenario(name: str, variant: int = 0) -> dict:
             job["many"] = 40
         jobs.append(job)
     return {"name": name, "variant": variant, "workers": workers, "poll_worker": POLLS[variant % len(POLLS)] if variant else 0.1,
-            "jobs": jobs}
+            "jobs": jobs, "chain": chain}
 
 
 # ------------------------------------------------------------------------------------------ shims
@@ -476,6 +482,19 @@ class Harness:
         inputs = [(c15.job_cfg(job, self.scratch, for_queue=True), c15.job_data(job), ContextType(c15.job_ctx(job))) for job in jobs]
         REC.clear()
 
+        chain = {int(k): int(v) for k, v in (scn.get("chain") or {}).items()}
+        x.chain_started = {}
+
+        def enqueue_job(j, who):
+            cfg, data, ctx = inputs[j]
+            mon.ev(who, "enqueue_call", None, j)
+            shim.take()
+            fut = orch.enqueue(cfg, data=data, context=ctx, return_future=True)
+            x.job_ids[j] = shim.take()
+            mon.ev(who, "enqueue_return", x.job_ids[j], j)
+            x.futures[j] = fut
+            fut.add_done_callback(on_done(j))
+
         def on_done(idx):
             def cb(fut):
                 snap = {}
@@ -494,18 +513,18 @@ class Harness:
                 me = sched._ctx()[1]
                 snap["tick"] = mon.ev(me.name if me is not None else "?", "future_done", x.job_ids[idx], idx)
                 x.completions.setdefault(idx, []).append(snap)
+                if idx in chain and chain[idx] not in x.chain_started:
+                    # job chaining: the follow-up job is enqueued from the completion callback
+                    x.chain_started[chain[idx]] = "called"
+                    enqueue_job(chain[idx], me.name if me is not None else "?")
+                    x.chain_started[chain[idx]] = "returned"
             return cb
 
         def client():
             try:
-                for j, (cfg, data, ctx) in enumerate(inputs):
-                    mon.ev("client", "enqueue_call", None, j)
-                    shim.take()
-                    fut = orch.enqueue(cfg, data=data, context=ctx, return_future=True)
-                    x.job_ids[j] = shim.take()
-                    mon.ev("client", "enqueue_return", x.job_ids[j], j)
-                    x.futures[j] = fut
-                    fut.add_done_callback(on_done(j))
+                for j in range(len(inputs)):
+                    if j not in chain.values():
+                        enqueue_job(j, "client")
             finally:
                 x.client_done = True
 
@@ -584,6 +603,16 @@ def oracle(x: Exec, prep: dict) -> list:
             out.append(("future_completed_twice", f"job {j}: {len(comps)} completion events on one Future", jw(j)))
         if fut is None:
             flagged.add(j)
+            started = getattr(x, "chain_started", {}).get(j)
+            if started == "called":
+                out.append(("future_never_completes_enqueue_from_done_callback_never_returned",
+                            f"job {j}: enqueue(..., return_future=True) was called from the done-callback of job "
+                            f"{[a for a, b in (scn.get('chain') or {}).items() if int(b) == j]}'s Future and never returned "
+                            f"(blocked threads at the end: {s.deadlock})", jw(j)))
+            elif started is None and j in [int(b) for b in (scn.get("chain") or {}).values()] and not master_died:
+                parent = [int(a) for a, b in (scn.get("chain") or {}).items() if int(b) == j][0]
+                if x.futures[parent] is not None and x.futures[parent].done() and not x.completions.get(parent):
+                    out.append(("done_callback_not_invoked", f"job {parent}'s Future is done but its done-callback never ran", jw(j)))
             continue                    # enqueue() never returned: the client's death is reported above
         if not fut.done():
             flagged.add(j)
@@ -847,7 +876,7 @@ def explore_random(run, acct, H, rng, n_total, scenarios, variant0=0):
         acct.account(H, H.execute(scn, chooser, strategy, None, early))
 
 
-S1, S2, S3, S4, S5 = SCENARIO_NAMES
+S1, S2, S3, S4, S5, S6 = SCENARIO_NAMES
 
 
 def plan(tier: str, seed: int, shard=(0, 1)):
